@@ -860,7 +860,7 @@ def gen_cases(tier, rng):
         cases.append(("directed", {"deck": "default", "ops": [
             "A %d" % lay, "E s 0 0 R " + nm(ren), "P 0 %d 0" % lay, "P 0 %d 1" % lay, "E s 0 1 D", "P 0 %d 2" % lay,
             "E s 0 0 R " + nm("Title 4"), "E s 0 2 R " + nm("Title 5"), "P 0 %d 0" % lay, "X 0 1 2 3 4", "P 0 1 0", "P 0 %d 1" % lay]}))
-    n_gen = 600 if tier == "quick" else 5000
+    n_gen = 500 if tier == "quick" else 5000
     for i in range(n_gen):
         pop = {}
         li = rng.randrange(11)
